@@ -1,0 +1,75 @@
+//go:build verif
+
+package fontscan
+
+import "github.com/go-text/typesetting/font"
+
+func VerifCoverages(c font.Cmap) (RuneSet, ScriptSet) {
+	rs, ss, _ := newCoveragesFromCmap(c, nil)
+	return rs, ss
+}
+
+func VerifRetainBest(aspects []font.Aspect, query font.Aspect) []int {
+	fs := make(fontSet, len(aspects))
+	cands := make([]int, len(aspects))
+	for i, a := range aspects {
+		fs[i].Aspect = a
+		cands[i] = i
+	}
+	return fs.retainsBestMatches(cands, query)
+}
+
+type VerifIndex = systemFontsIndex
+
+func VerifScan(prev VerifIndex, dirs ...string) (VerifIndex, error) {
+	return scanFontFootprints(nopLogger{}, prev, dirs...)
+}
+
+type nopLogger struct{}
+
+func (nopLogger) Printf(string, ...interface{}) {}
+
+func VerifSerialize(idx VerifIndex) ([]byte, error) {
+	var b bytesBuffer
+	err := idx.serializeTo(&b)
+	return b.b, err
+}
+
+type bytesBuffer struct{ b []byte }
+
+func (w *bytesBuffer) Write(p []byte) (int, error) { w.b = append(w.b, p...); return len(p), nil }
+
+func VerifDeserialize(r interface{ Read([]byte) (int, error) }) (VerifIndex, error) {
+	return deserializeIndex(r)
+}
+
+func VerifProject(idx VerifIndex) []string {
+	var out []string
+	for _, f := range idx {
+		s := f.path + "|" + itoa(int64(f.modTime)) + "|"
+		for _, fp := range f.footprints {
+			s += fp.Family + ":" + itoa(int64(fp.Runes.Len())) + ":" + itoa(int64(len(fp.Scripts))) + ":" + itoa(int64(fp.Aspect.Weight)) + ";"
+		}
+		out = append(out, s)
+	}
+	return out
+}
+
+func itoa(v int64) string {
+	if v == 0 {
+		return "0"
+	}
+	neg := v < 0
+	if neg {
+		v = -v
+	}
+	var b []byte
+	for v > 0 {
+		b = append([]byte{byte('0' + v%10)}, b...)
+		v /= 10
+	}
+	if neg {
+		b = append([]byte{'-'}, b...)
+	}
+	return string(b)
+}
